@@ -74,6 +74,13 @@ def r1_guarded_reinterpretation(ctx):
             if a and a[0] == 'cmp' and a[1] == 'eq':
                 txt = show_c(a[2]) + show_c(a[3])
                 ok = 'TypeId::of' in txt and ('type_id' in txt)
+                if not ok:
+                    # the stored id is whatever a thunk of this body's vtable reports (directly or as a component of a record); R2 decides
+                    # that every thunk that is generic is instantiated at the vtable's own T
+                    sides = (a[2], a[3])
+                    of = [x for x in sides if peel(x)[0] == 'call' and peel(x)[1] == 'std::any::TypeId::of']
+                    via = [x for x in sides if any(y[0] == 'callind' and any(z[0] == 'field' and z[2] == 'vtable' for z in walk(y[1])) for y in walk(x))]
+                    ok = len(of) == 1 and len(via) == 1 and of[0] is not via[0]
         ctx.check(ok, 'is-compares-typeid', 'is::<T>() compares the stored type id with TypeId::of::<T>()', fi.where())
 
 
@@ -330,6 +337,16 @@ def r4_length(ctx):
                 return any(x[0] == 'call' and x[1].endswith('MessageBody>::byte_len') and any(y[0] == 'field' and y[2] == 'header' for y in walk(x)) for x in walk(p))
             for b, t in ret_trees(f):
                 q = peel(t)
+                if q[0] == 'phi' and len(q[1]) == 2:
+                    # match form: `match body { Some(b) => b.length() + H, None => H }`
+                    alts = [peel(x) for x in q[1]]
+                    alts = [a_[1] if (a_[0] == 'field' and a_[1][0] == 'bin') else a_ for a_ in alts]
+                    sums = [a_ for a_ in alts if a_[0] == 'bin' and a_[1].startswith('Add')]
+                    bare = [a_ for a_ in alts if not (a_[0] == 'bin' and a_[1].startswith('Add'))]
+                    if len(sums) == 1 and len(bare) == 1 and is_hdr(bare[0]) and not any(x[0] == 'call' and x[1] == BODY + '::length' for x in walk(bare[0])):
+                        parts = (sums[0][2], sums[0][3])
+                        blen = [p_ for p_ in parts if peel(p_)[0] == 'call' and peel(p_)[1] == BODY + '::length' and any(y[0] == 'field' and y[2] == 'content' for y in walk(p_))]
+                        ok = len(blen) == 1 and any(is_hdr(p_) for p_ in parts if p_ is not blen[0])
                 if q[0] == 'call' and q[1].endswith('Option::map_or') and len(q[2]) == 3 and any(y[0] == 'field' and y[2] == 'content' for y in walk(q[2][0])) and is_hdr(q[2][1]):
                     cl = peel(q[2][2])
                     g = P.fns.get(cl[1][len('closure:'):]) if cl[0] == 'agg' and str(cl[1]).startswith('closure:') else None
